@@ -3,6 +3,9 @@ package props
 import (
 	"fmt"
 	"sort"
+	"strings"
+
+	"github.com/Oudwins/zog/parsers/zjson"
 
 	"zogverif/internal/core"
 	"zogverif/internal/gen"
@@ -65,6 +68,13 @@ func (c13) RunCase(c *core.Ctx) {
 			recV, recP := &orderRecorder{}, &orderRecorder{}
 			bV := spec.Build(n, recV.hooks(c.R))
 			bP := spec.Build(n, recP.hooks(c.R))
+			if n.Kind == spec.Struct && c.R.Intn(3) == 0 {
+				// the same schema and destination type have served a JSON request before (nothing of that may stick)
+				run.Parse(bP, zjson.Decode(strings.NewReader(`{"zz_unrelated":1}`)), nil)
+				if c.R.Bool() {
+					run.Parse(bV, zjson.Decode(strings.NewReader(`{"zz_unrelated":1}`)), nil)
+				}
+			}
 			oV := run.Validate(bV, v)
 			oP := run.Parse(bP, data, gen.Prefill(c.R, n, false))
 			c.Eval(2)
